@@ -408,8 +408,13 @@ def sym_hexlify(b):
         return _binascii.hexlify(b)
     out = []
     for v in b.lst:
-        out.append(_nibble_char((v >> 4) & 0xF))
-        out.append(_nibble_char(v & 0xF))
+        hi = _nibble_char((v >> 4) & 0xF)
+        lo = _nibble_char(v & 0xF)
+        if type(hi) is SymInt and type(lo) is SymInt and hi.tag and lo.tag and 0 <= v.lo and v.hi <= 255:
+            hi.tag = hi.tag + (v, 1)     # provenance: high / low digit of the byte v
+            lo.tag = lo.tag + (v, 0)
+        out.append(hi)
+        out.append(lo)
     return SymBytes.make(out)
 
 
@@ -424,6 +429,11 @@ def sym_unhexlify(s):
         raise _binascii.Error("Odd-length string")
     out = []
     for i in _real_range(0, _real_len(cps), 2):
+        th, tl = getattr(cps[i], "tag", None), getattr(cps[i + 1], "tag", None)
+        if type(th) is tuple and type(tl) is tuple and _real_len(th) == 4 and _real_len(tl) == 4 \
+                and th[0] == tl[0] == "hexdigit" and th[2] is tl[2] and th[3] == 1 and tl[3] == 0:
+            out.append(th[2])            # the two digits sym_hexlify made of one byte: that byte
+            continue
         try:
             hi = hexdigit_value(cps[i])
             lo = hexdigit_value(cps[i + 1])
